@@ -17,6 +17,7 @@ import re
 from core import *
 from dataflow import *
 from cfgq import *
+from parsers import built_messages
 
 LEVEL = 'other'
 EXPLANATION = __doc__
@@ -254,7 +255,7 @@ def absent(ctx, cfg, fs):
         after = set()
         for e in envb:
             after |= body.reachable(e)
-        ms = sorted({v for (b, v) in err_messages(body) if b in after})
+        ms = sorted({v for (b, v) in built_messages(fs, body) if b in after})
         ok = set(ms) <= {'Missing', 'NoEnv'} and 'Missing' in ms and 'NoEnv' in ms
         ctx.ob('M.both-absent', '%s:absent-errors' % nm, ok, '%s: errors built after the environment lookup failed: %s' % (nm, ms), where=body.where(), cfg=cfg)
     cc = ctx.look(fs.one(r'error::Message::can_catch$'))
